@@ -15,6 +15,8 @@ import sys
 import tempfile
 
 VERIF = os.path.dirname(os.path.dirname(os.path.abspath(__file__)))
+CHECK_ROOT = [VERIF]     # where the checker code is taken from; main() points it at a private snapshot so that editing /verif
+                         # while a long self-test runs cannot change (or break) the checker half-way through
 ALL = ["C01", "C02", "C03", "C04", "C05", "C06", "C07", "C08", "C09", "C10", "C11", "C12", "C13", "C14", "C15", "C16", "C17", "C18", "C19", "C20"]
 
 
@@ -30,7 +32,7 @@ def run_seed(sid, props):
             return sid, {"error": "patch does not apply: " + r.stdout[-300:]}
         env = dict(os.environ, VERIF_CACHE_DIR=os.path.join(scratch, "cache"), CARGO_NET_OFFLINE="true")
         for p in props:
-            r = subprocess.run([os.path.join(VERIF, "check"), p, "--repo", repo, "--no-evidence"], cwd=VERIF, env=env,
+            r = subprocess.run([os.path.join(CHECK_ROOT[0], "check"), p, "--repo", repo, "--no-evidence"], cwd=CHECK_ROOT[0], env=env,
                                stdout=subprocess.PIPE, stderr=subprocess.STDOUT, text=True)
             lines = r.stdout.splitlines()
             first = ""
@@ -39,7 +41,10 @@ def run_seed(sid, props):
                     first = (lines[i + 1].strip() if i + 1 < len(lines) else "")[:400]
                     break
             nviol = sum(1 for l in lines if l.startswith("VIOLATION"))
-            res[p] = {"exit": r.returncode, "violations_printed": nviol, "summary": lines[0] if lines else "", "first": first}
+            rc = r.returncode
+            if rc != 0 and nviol == 0:
+                rc = "error(%s): %s" % (r.returncode, (lines[-1] if lines else "")[:200])     # a crash is not a report
+            res[p] = {"exit": rc, "violations_printed": nviol, "summary": lines[0] if lines else "", "first": first}
     finally:
         shutil.rmtree(scratch, ignore_errors=True)
     return sid, res
@@ -59,7 +64,7 @@ def run_benign(name, props):
             return name, {"error": "patch does not apply: " + r.stdout[-300:]}
         env = dict(os.environ, VERIF_CACHE_DIR=os.path.join(scratch, "cache"), CARGO_NET_OFFLINE="true")
         for p in props:
-            r = subprocess.run([os.path.join(VERIF, "check"), p, "--repo", repo, "--no-evidence"], cwd=VERIF, env=env,
+            r = subprocess.run([os.path.join(CHECK_ROOT[0], "check"), p, "--repo", repo, "--no-evidence"], cwd=CHECK_ROOT[0], env=env,
                                stdout=subprocess.PIPE, stderr=subprocess.STDOUT, text=True)
             lines = r.stdout.splitlines()
             first = ""
@@ -67,7 +72,10 @@ def run_benign(name, props):
                 if l.startswith("VIOLATION"):
                     first = (lines[i + 1].strip() if i + 1 < len(lines) else "")[:400]
                     break
-            res[p] = {"exit": r.returncode, "summary": lines[0] if lines else "", "first": first}
+            rc = r.returncode
+            if rc != 0 and not any(l.startswith("VIOLATION") for l in lines):
+                rc = "error(%s): %s" % (r.returncode, (lines[-1] if lines else "")[:200])
+            res[p] = {"exit": rc, "summary": lines[0] if lines else "", "first": first}
     finally:
         shutil.rmtree(scratch, ignore_errors=True)
     return name, res
@@ -81,14 +89,32 @@ def main():
     ap.add_argument("--jobs", type=int, default=8)
     ap.add_argument("--benign", action="store_true", help="run every check on the behaviour-preserving refactors (must stay silent)")
     a = ap.parse_args()
+    snap = tempfile.mkdtemp(prefix="verif-snap-", dir="/tmp")
+    for d in ("analysis", "rules", "spec", "driver", "tools"):
+        shutil.copytree(os.path.join(VERIF, d), os.path.join(snap, d), ignore=shutil.ignore_patterns("__pycache__", "target"))
+    for f in ("check", "known_findings.json"):
+        shutil.copy2(os.path.join(VERIF, f), os.path.join(snap, f))
+    os.makedirs(os.path.join(snap, ".cache"), exist_ok=True)
+    if os.path.isdir(os.path.join(VERIF, ".cache", "driver-target")):
+        os.symlink(os.path.join(VERIF, ".cache", "driver-target"), os.path.join(snap, ".cache", "driver-target"))
+    CHECK_ROOT[0] = snap
+    import atexit
+    atexit.register(lambda: shutil.rmtree(snap, ignore_errors=True))
     if a.benign:
         bad = 0
-        for name in sorted(f for f in os.listdir(os.path.join(VERIF, "selftest", "benign")) if f.endswith(".diff")):
-            _n, res = run_benign(name, a.props.split(",") if a.props else ALL)
+        names = sorted(f for f in os.listdir(os.path.join(VERIF, "selftest", "benign")) if f.endswith(".diff"))
+        if a.seeds:
+            names = [n for n in names if any(n.startswith(x) for x in a.seeds.split(","))]
+        with concurrent.futures.ThreadPoolExecutor(max_workers=a.jobs) as ex:
+            results = list(ex.map(lambda n: run_benign(n, a.props.split(",") if a.props else ALL), names))
+        for name, res in results:
             for p, v in sorted(res.items()) if isinstance(res, dict) else []:
-                if isinstance(v, dict) and v.get("exit") != 0:
+                if isinstance(v, dict) and v.get("exit") == 1:
                     bad += 1
                     print("FALSE ALARM", name, p, v.get("first"))
+                elif isinstance(v, dict) and v.get("exit") != 0:
+                    bad += 1
+                    print("CHECK ERROR", name, p, v.get("exit"))
             print(name, {p: (v.get("exit") if isinstance(v, dict) else v) for p, v in res.items()})
         sys.exit(1 if bad else 0)
     seeds = sorted(d for d in os.listdir(os.path.join(VERIF, "seeded")) if os.path.isdir(os.path.join(VERIF, "seeded", d)))
@@ -106,12 +132,18 @@ def main():
             props = sorted(set([sid.split("-")[0]] + [p for p, v in matrix.get(sid, {}).items() if isinstance(v, dict) and v.get("exit") == 1]))
         props = [p for p in props if p in ALL]
         jobs.append((sid, props))
+    updates = {}
     with concurrent.futures.ThreadPoolExecutor(max_workers=a.jobs) as ex:
         for sid, res in ex.map(lambda j: run_seed(*j), jobs):
             matrix.setdefault(sid, {}).update(res)
+            updates.setdefault(sid, {}).update(res)
             caught = [p for p, v in res.items() if isinstance(v, dict) and v.get("exit") == 1]
             print(sid, "caught by", caught or "-", {p: v.get("exit") for p, v in res.items() if isinstance(v, dict)})
             sys.stdout.flush()
+    # merge into the file as it is now (another selftest run may have written it meanwhile)
+    matrix = json.load(open(mpath)) if os.path.exists(mpath) else {}
+    for sid, res in updates.items():
+        matrix.setdefault(sid, {}).update(res)
     json.dump(matrix, open(mpath, "w"), indent=1, sort_keys=True)
 
 
